@@ -9,7 +9,8 @@
     2  cost of an entry never grows under a flush followed by ack processing
     3  the receiver keeps `Room` (H3) along a round; frame of the acknowledgement leg
     4  ONE FULL ROUND (`full_round`): updA ; flushA ; deliverToB* ; recvB* ; flushB ; deliverToA
-    5  the iteration: `Rounds`, `rounds_count`, `rounds_bytes`
+    5  the iteration: `RoundP`, `RoundOK`, `Rounds`; `rounds_generic`, `rounds_count`, `rounds_bytes`, `rounds_bytes_single`
+    6  executable checkers for the side conditions (`roundsb`, `rounds_of_b`)
 -/
 import RenetVerif.Lemmas.Liveness
 namespace RenetVerif.LiveK
